@@ -81,6 +81,10 @@ def lookupChecksum (cs name : Bytes) : Option Bytes :=
 
 def containsSub (needle b : Bytes) : Bool := (splitFirst? needle b).isSome
 
+def tailsOf {α} : List α → List (List α)
+  | [] => [[]]
+  | x :: xs => (x :: xs) :: tailsOf xs
+
 def shellOf (b : Bytes) : Asm.Shell := if b == ['w'] then .windows else .unix
 
 def respond (t : JoinTable) (op : String) (args : List Bytes) : String :=
@@ -178,6 +182,17 @@ def respond (t : JoinTable) (op : String) (args : List Bytes) : String :=
      | .install b => "ok " ++ toHexArg "install".toList ++ " " ++ toHexArg b
      | .upToDate => "ok " ++ toHexArg "uptodate".toList
      | .fail => "ok " ++ toHexArg "fail".toList)
+  | "root.find", start :: roots =>
+    -- paths are slash-separated, relative to the sandbox directory (itself a directory like any other, the outermost
+    -- component here); the sandbox's own ancestors hold no root
+    let comps (b : Bytes) : Root.Dir := ((splitCh '/' b).filter (fun c => !c.isEmpty)).reverse ++ [b!"SANDBOX"]
+    -- every directory that exists: the start directory, `<root>/regex-assembly` for every listed root, and their parents
+    -- (a component of the start path that is itself called regex-assembly makes its parent a root)
+    let made : List Root.Dir := comps start :: roots.map (fun r => b!"regex-assembly" :: comps r)
+    let dirs : List Root.Dir := made.flatMap tailsOf
+    (match Root.findRoot (fun d => dirs.contains (b!"regex-assembly" :: d)) (comps start) with
+     | some d => "ok " ++ toHexArg (joinCh '/' (d.reverse.drop 1))
+     | none => "diag")
   | "gen.run", ue :: us :: un :: we :: ws :: wn :: input :: files =>
     exceptResp (Asm.generate (tableEngine t) (decodeFs files) ⟨ue, us, un, we, ws, wn⟩ Parser.sortedOrd Parser.sortedOrd input)
   | _, _ => "bad-op"
